@@ -87,6 +87,11 @@ func EncodeUint64(buf []byte, val uint64) []byte {
 }
 
 func EncodeFloat64(buf []byte, val float64) []byte {
+	if val == 0 && math.Signbit(val) {
+		// "-0" is an integer literal to the JSON->binary converters (native vnumber returns +0.0 for it):
+		// spell negative zero as a float so that its sign survives the way back
+		return append(buf, "-0.0"...)
+	}
 	f64toa(&buf, val)
 	return buf
 }
